@@ -37,7 +37,7 @@ Inductive hs_kind := HsOk | HsFail.
 
 Record toracles := {
   o_clear : oracles;
-  o_trace_tls : bytes -> bytes -> bool -> bytes -> N -> bytes;
+  o_trace_tls : bytes -> bytes -> bytes -> bool -> bytes -> N -> bytes;
   o_certfile : bool;
   o_tlsinit : bool;
   o_eat : nat
@@ -49,6 +49,7 @@ Definition orc (o : toracles) (intls : bool) : oracles :=
      o_relay := o_relay (o_clear o); o_mx := o_mx (o_clear o); o_qq := o_qq (o_clear o);
      o_databytes := o_databytes (o_clear o); o_liphost := o_liphost (o_clear o);
      o_check2822 := o_check2822 (o_clear o);
+     o_authperm := o_authperm (o_clear o); o_auth := o_auth (o_clear o);
      o_trace := if intls then o_trace_tls o else o_trace (o_clear o) |}.
 
 (** the client's script *)
